@@ -200,3 +200,35 @@ def gen_fanout(seed):
   sub = {"ops": ops, "trole": role, "tbuf": [0] * len(role), "tsh": [[1, 2] if r == "act" else [0, 0] for r in role],
          "gins": [0], "gouts": [o["outs"][0] for o in ops], "sigrev": False}
   return {"subs": [sub], "mode": [[wo if i in wos else drq for i in range(n)]], "inmode": NOQ, "outmode": NOQ}
+
+
+def gen_const_output(seed):
+  """A random scenario in which one CONSTANT tensor (a weight, a bias or a generic constant operand) is also a graph output
+  (a converter keeps such outputs when a variable is returned as it is)."""
+  rnd = random.Random(seed * 2654435761 % (2 ** 31))
+  for k in range(50):
+    scn = gen(seed * 50 + k, 1, 4)
+    cands = [(si, t) for si, sub in enumerate(scn["subs"]) for t, r in enumerate(sub["trole"])
+             if r in ("w", "c", "b") and t not in sub["gouts"] and any(t in o["ins"] for o in sub["ops"])]
+    if cands:
+      si, t = rnd.choice(cands)
+      scn["subs"][si]["gouts"] = list(scn["subs"][si]["gouts"]) + [t]
+      return scn
+  return scn
+
+
+def const_output_family():
+  """Single-operator graphs whose weight / bias / constant operand is also a graph output, under every mode of the operator."""
+  out = []
+  wmodes = [NOQ, {"m": "WO", "a": "-", "w": "w8c"}, {"m": "WO", "a": "-", "w": "w4c"}, {"m": "DRQ", "a": "-", "w": "w8c"},
+            {"m": "SRQ", "a": "a8a", "w": "w8c"}, {"m": "SRQ", "a": "a16", "w": "w8c"}, {"m": "F16", "a": "-", "w": "-"}]
+  for m in wmodes:
+    for extra in (1, 2):      # the weight, the bias
+      sub = {"ops": [{"kind": "FC", "ins": [0, 1, 2], "outs": [3]}], "trole": ["act", "w", "b", "act"], "tbuf": [0, 0, 0, 0],
+             "tsh": [[1, 2], [0, 0], [0, 0], [1, 2]], "gins": [0], "gouts": [3, extra], "sigrev": False}
+      out.append({"subs": [sub], "mode": [[m]], "inmode": NOQ, "outmode": NOQ})
+  for m in MODES_A:
+    sub = {"ops": [{"kind": "EW2", "ins": [0, 1], "outs": [2]}], "trole": ["act", "c", "act"], "tbuf": [0, 0, 0],
+           "tsh": [[1, 2], [1, 2], [1, 2]], "gins": [0], "gouts": [2, 1], "sigrev": False}
+    out.append({"subs": [sub], "mode": [[m]], "inmode": NOQ, "outmode": NOQ})
+  return out
